@@ -159,6 +159,7 @@ func CheckC05(c *Ctx) {
 	c.recheckContracts(used, "actions/contract", "strategies shift their actions by this indicator's IdlePeriod() and pair its k-th value with snapshot k + IdlePeriod()")
 	c.constructorParameters("actions/constructor", "strategy")
 	c.registryCoverage(analysed)
+	c.registryAdmissible()
 	c.actionConstants()
 	c.decoratorHold()
 	run.Assume("a wrapped strategy s emits max(n, s.warmup) actions with anchor 0 and Hold through its warm-up (the contract this check establishes for every concrete strategy)")
@@ -822,4 +823,75 @@ func (c *Ctx) reportActionsColumn(r *shape.Result, fi *load.FuncInfo, site strin
 		run.Violate(report.Finding{Rule: "report/" + kind + "-value", Site: site, Detail: short(sym.CanonString(ct), 100), Pos: pos,
 			Message: "the " + kind + " column is not " + what + ": it carries " + short(sym.CanonString(ct), 200)})
 	}
+}
+
+// registryAdmissible: every strategy an AllStrategies registry hands out is an admissible
+// configuration: the registry function is interpreted, and on each object of the slice it returns
+// every relation the admissibility table Γ states for the object's type (and for the indicators
+// it holds) is decided. The verdicts of the other rules hold for admissible configurations only;
+// a registry entry outside Γ (a variant with one of two lock-step periods changed) is a strategy
+// nothing vouches for.
+func (c *Ctx) registryAdmissible() {
+	run := c.Run
+	n, nRel := 0, 0
+	for _, fi := range c.P.Decls {
+		if fi.Fn.Name() != "AllStrategies" || fi.Decl.Recv != nil || fi.Decl.Body == nil {
+			continue
+		}
+		if strings.HasSuffix(c.P.Fset.Position(fi.Decl.Pos()).Filename, "_test.go") {
+			continue
+		}
+		skip := map[string]bool{}
+		for _, g := range shape.GammaTable {
+			skip[g.Type] = true
+		}
+		it := shape.NewInterp(c.P, shape.ModeContracts)
+		it.SkipGamma = skip
+		for _, r := range it.AnalyzeRoot(fi) {
+			sl, ok := r.Ret.(*shape.Slice)
+			if !ok {
+				continue
+			}
+			for i, cell := range sl.Elems {
+				obj, ok := cell.V.(*shape.Object)
+				if !ok {
+					continue
+				}
+				n++
+				var walk func(o *shape.Object, depth int)
+				seen := map[*shape.Object]bool{}
+				walk = func(o *shape.Object, depth int) {
+					if o == nil || seen[o] || depth > 3 {
+						return
+					}
+					seen[o] = true
+					tn := o.TypeName()
+					for _, g := range shape.GammaTable {
+						if g.Type != tn {
+							continue
+						}
+						holds, applicable := it.GammaRelation(r.G, o, g.Rel)
+						if !applicable {
+							continue
+						}
+						nRel++
+						run.Oblige(holds)
+						if !holds {
+							c.violate("actions/registry", load.FuncName(fi.Fn), fmt.Sprintf("entry %d: %s", i, g.Rel), fi.Decl.Pos(),
+								fmt.Sprintf("entry %d of the registry (%s) does not satisfy %s (%s): the strategy it hands out is outside the configurations the analyses cover, its streams fall out of step", i, tn, g.Rel, g.Why))
+						}
+					}
+					for _, fc := range o.Fields {
+						if inner, ok := fc.V.(*shape.Object); ok {
+							walk(inner, depth+1)
+						}
+					}
+				}
+				walk(obj, 0)
+			}
+		}
+	}
+	run.Count("registry_objects", n)
+	run.Floor("registry_objects", 30)
+	run.Count("registry_relations", nRel)
 }
